@@ -1,3 +1,14 @@
+/-
+  Property C10 (extension) — the pivot entries of the relation table for the dual graph classes:
+    * cographicness (`isCographic`) of a 0/1 matrix is invariant under a GF(2) pivot (`cog_V2`, `cog_step_V2`);
+    * being a conetwork matrix (`isConetwork`) is invariant under a GF(3) pivot of a matrix with entries `0, 1, -1`
+      (`con_V3`, `con_step_V3`).
+
+  Route.  The library-convention pivot is symmetric under transposition (`pivotRaw_transpose`), hence
+  `transpose (pivot2 M r c) = pivot2 (transpose M) c r` (`transpose_pivot2`, same for `pivot3`).  Since
+  `isCographic m n M` is `isGraphic n m (transpose m n M)`, the statements reduce to `C10GraphicPivot.gra_V2` and
+  `C10GraphicPivot.net_V3` applied to the transpose.
+-/
 import CmrProofs.Props.C10GraphicPivot
 
 set_option linter.unusedSimpArgs false
@@ -81,9 +92,5 @@ theorem con_step_V3 {r c : Nat} {m n : Nat} {M : Mat} {m' n' : Nat} {M' : Mat}
     exact con_V3 hwf ht hok
   · cases h
 
-#print axioms cog_V2
-#print axioms con_V3
-#print axioms cog_step_V2
-#print axioms con_step_V3
 
 end Cmr.Props.C10CographicPivot
